@@ -3,6 +3,9 @@
    driver only converts hex words to [list N] and back. *)
 From Coq Require Import List NArith ZArith Bool.
 From PV Require Import Base.Bytes Base.Lit Base.Json Base.Utf8 Model.Hexdump Spec.DumpFormats Gen.Tables.
+From PV Require Import Extract.ApiIo.
+From PV Require Import Extract.ApiPel.
+From PV Require Extract.ApiHw.
 Import ListNotations.
 Open Scope N_scope.
 
@@ -29,4 +32,6 @@ Definition run (cmd : text) (args : list bytes) : text :=
     render (jstrs (render1 (if Nat.eqb (nat_arg (arg 0 args)) 0 then hexdigU else hexdigL) (arg 1 args)))
   else if is_cmd cmd (L "render2") then
     render (jstrs (render2 (if Nat.eqb (nat_arg (arg 0 args)) 0 then hexdigU else hexdigL) (arg 1 args)))
-  else L """unknown command""".
+  else match run_io cmd args with Some t => t | None =>
+       match run_pel cmd args with Some t => t | None =>
+       match ApiHw.run_hw cmd args with Some t => t | None => L """unknown command""" end end end.
